@@ -24,6 +24,9 @@ import XotModel.Lemmas.Entity
 import XotModel.Lemmas.SerTokensLexTop
 import XotModel.Lemmas.SerTokensDecode
 import XotModel.Lemmas.SerTokensPieces
+import XotModel.Lemmas.RoundTripTokens
+import XotModel.Lemmas.RoundTripTop
+import XotModel.Props.C02
 
 namespace XotModel.Props
 open XotModel XotModel.Gen
@@ -195,5 +198,94 @@ example :
     toXmlString env t [] = .ok "<:a xmlns:=\"u\"/>".toList ∧
     (serTokensTop env t).toOption.map renderTokens = some "<a xmlns:=\"u\"/>".toList := by
   decide
+
+/-! ### Tree level: the round trip
+
+The three thirds glued.  `spellTop env t` (Lemmas/RoundTripDefs.lean) is the SPELLING of the tree: the
+`NSNode`s (vocabulary of C02_spelled_ns) with the serialiser's prefix choices, one `Piece` per character.
+  A  `C01_spelling_tokens`   its tokens are the tokens `to_string` renders (`serTokensTop`)
+  B  `C01_spelling_denotes`  what it denotes by XML-Namespaces scoping over the declarations as written
+                             (strings) is what the ORIGINAL tree reads back as through its tables
+                             (the bridge from the id-level scoping of C10 to strings)
+  C  `C01_spelling_well`     the builder admits it (`WellNsDoc`)
+`LexCanon` is the tokenizer contract: on the canonical rendering of a `LexOK` token list the
+tokenizer returns that list up to byte positions (to be discharged by the reference tokenizer). -/
+
+/-- A: the tokens of the spelling are the serialiser's tokens (every tree, sound or not). -/
+theorem C01_spelling_tokens (env : Env) (t : Tree) (ts : List Token) (h : serTokensTop env t = .ok ts) :
+    NSNode.tokens.tokensList (spellTop env t) = ts :=
+  spell_tokens env t ts h
+
+/-- B: the spelling denotes, in the base scope, the abstract document the tree reads back as. -/
+theorem C01_spelling_denotes (env : Env) (t : Tree) (hr : RepresentableFragment env t = true)
+    (ts : List Token) (h : serTokensTop env t = .ok ts) :
+    decodeNs env t.kids = some (NSNode.denote.denoteList baseScope (spellTop env t)) := by
+  obtain ⟨ks, rfl, hf⟩ := topFacts hr h
+  exact (spellTop_denote hf).1
+
+/-- C: the builder admits the spelling. -/
+theorem C01_spelling_well (env : Env) (t : Tree) (hr : RepresentableFragment env t = true)
+    (ts : List Token) (h : serTokensTop env t = .ok ts) : WellNsDoc (spellTop env t) := by
+  obtain ⟨ks, rfl, hf⟩ := topFacts hr h
+  exact spellTop_well hf
+
+/-- `envOK` (part of `Representable`) implies the hypothesis of the builder theorems. -/
+theorem C01_envBaseNs (env : Env) (h : envOK env = true) : EnvBaseNs env :=
+  (envFacts_of_envOK h).envBaseNs
+
+theorem representable_ser {env : Env} {t : Tree} (hr : RepresentableFragment env t = true) {s : Str}
+    (hs : toXmlString env t [] = .ok s) : ∃ ts, serTokensTop env t = .ok ts ∧ s = renderTokens ts := by
+  rw [C01_serialised_is_rendering_representable env t hr] at hs
+  cases hts : serTokensTop env t with
+  | ok ts => rw [hts] at hs; cases hs; exact ⟨ts, rfl, rfl⟩
+  | error e => rw [hts] at hs; cases hs
+
+/-- **C01_main** (`parse`): for every representable document whose default serialisation succeeds
+    (every namespaced name has a usable prefix in scope), and every tokenizer meeting the contract:
+    the serialised text is tokenized without error, the builder accepts the tokens, and the reparsed
+    document reads back — through the interning tables the parse leaves — as exactly the abstract
+    document the original tree reads back as: node kinds and order, expanded names (namespace URI
+    and local name as strings), per element the declarations (prefix, URI) in order, the
+    attributes in order with their values, text, comments, processing instructions. -/
+theorem C01_main (env : Env) (t : Tree) (hr : Representable env t = true)
+    (lex : Str → List Token × Option Nat) (hlex : LexCanon false lex) (s : Str)
+    (hs : toXmlString env t [] = .ok s) :
+    ∃ ts p, lex s = (ts, none) ∧ build .document (strLen s) env ts none = .ok p ∧
+      p.tree.value = .document ∧ decodeNs p.env p.tree.kids = decodeNs env t.kids := by
+  have hr' := hr
+  simp only [Representable, Bool.and_eq_true] at hr'
+  obtain ⟨hfrag, hsingle⟩ := hr'
+  obtain ⟨ts0, hser, rfl⟩ := representable_ser hfrag hs
+  obtain ⟨ts, hl, her⟩ := hlex ts0 (C01_rendering_lexok env t hr ts0 hser)
+  obtain ⟨ks, rfl, hf⟩ := topFacts hfrag hser
+  have hA := spell_tokens env _ ts0 hser
+  obtain ⟨p0, hb, hv, hd⟩ := C02_spelled_ns_document hf.he.envBaseNs (strLen (renderTokens ts0))
+    (spellTop env (.node .document ks)) (spellTop_well hf) (spellTop_abstractTop hf hsingle)
+  rw [hA] at hb
+  obtain ⟨p, hp, h1, h2, _⟩ := C02_positions_irrelevant_ok .document _ (strLen (renderTokens ts0)) env ts0 ts
+    her.symm p0 hb
+  refine ⟨ts, p, hl, hp, by rw [h1]; exact hv, ?_⟩
+  rw [h1, h2, hd]
+  exact (spellTop_denote hf).1.symm
+
+/-- **C01_main_fragment** (`parse_fragment`): the same for any well-formed content under the
+    document node (several top-level elements, top-level text). -/
+theorem C01_main_fragment (env : Env) (t : Tree) (hr : RepresentableFragment env t = true)
+    (lex : Str → List Token × Option Nat) (hlex : LexCanon true lex) (s : Str)
+    (hs : toXmlString env t [] = .ok s) :
+    ∃ ts p, lex s = (ts, none) ∧ build .fragment (strLen s) env ts none = .ok p ∧
+      p.tree.value = .document ∧ decodeNs p.env p.tree.kids = decodeNs env t.kids := by
+  obtain ⟨ts0, hser, rfl⟩ := representable_ser hr hs
+  obtain ⟨ts, hl, her⟩ := hlex ts0 (C01_rendering_lexok_fragment env t hr ts0 hser)
+  obtain ⟨ks, rfl, hf⟩ := topFacts hr hser
+  have hA := spell_tokens env _ ts0 hser
+  obtain ⟨p0, hb, hv, hd⟩ := C02_spelled_ns_fragment hf.he.envBaseNs (strLen (renderTokens ts0))
+    (spellTop env (.node .document ks)) (spellTop_well hf)
+  rw [hA] at hb
+  obtain ⟨p, hp, h1, h2, _⟩ := C02_positions_irrelevant_ok .fragment _ (strLen (renderTokens ts0)) env ts0 ts
+    her.symm p0 hb
+  refine ⟨ts, p, hl, hp, by rw [h1]; exact hv, ?_⟩
+  rw [h1, h2, hd]
+  exact (spellTop_denote hf).1.symm
 
 end XotModel.Props
